@@ -49,7 +49,7 @@ struct Annot : Profile {
     std::vector<std::string> required_probes() const override
     {
         return {"rewrite-longer", "rewrite-shorter", "desc-with-nul", "many-per-object", "select-all", "annlist", "dfan-put", "dfan-get",
-                "restart", "create-first-in-session", "dfan-missing-file", "dfan-burst", "dfan-burst>32"};
+                "restart", "create-first-in-session", "dfan-missing-file", "dfan-burst", "dfan-burst>32", "short-buffer-read"};
     }
 
     Plan generate(Rng &rng, bool thorough, uint64_t) override
@@ -167,6 +167,23 @@ struct Annot : Profile {
         for (size_t j = x.text.size() + 2; j < buf.size(); j++)
             if (buf[j] != 0x5A)
                 s.ctx.fail("buffer-overrun", "buffer-overrun:readann", "ANreadann wrote beyond maxlen");
+        if (x.text.size() >= 4) {
+            // a buffer shorter than the text: a description fills it, a label fills all but the last byte (its terminator);
+            // nothing is written behind it
+            int32             m = (int32)x.text.size() - 1 - (int32)(x.text.size() % 3);
+            bool              label = x.type == 0 || x.type == 2;
+            std::vector<char> part((size_t)m + 8, 0x5A);
+            if (ANreadann(id, part.data(), m) == FAIL)
+                s.ctx.fail("read-refused", "read-refused:short-buffer", strf("ANreadann of annotation %u/%u into %d bytes (text: %zu) failed (%s)", x.atag, x.aref, (int)m, x.text.size(), when));
+            size_t want = (size_t)(label ? m - 1 : m);
+            if (memcmp(part.data(), x.text.data(), want) != 0)
+                s.ctx.fail("text-mismatch", strf("text-mismatch:short-buffer:type%d", x.type),
+                           strf("annotation %u/%u (type %d, %zu bytes) read into a buffer of %d bytes: the first %zu bytes are not the text (%s)", x.atag, x.aref, x.type, x.text.size(), (int)m, want, when));
+            for (size_t j = (size_t)m; j < part.size(); j++)
+                if (part[j] != 0x5A)
+                    s.ctx.fail("buffer-overrun", "buffer-overrun:readann-short", "ANreadann wrote beyond a short buffer");
+            s.ctx.probe("short-buffer-read");
+        }
         uint16 t = 0, r = 0;
         if (ANid2tagref(id, &t, &r) == FAIL || t != x.atag || r != x.aref)
             s.ctx.fail("id-mismatch", "id-mismatch:id2tagref", strf("ANid2tagref gives %u/%u for the annotation stored as %u/%u (%s)", t, r, x.atag, x.aref, when));
